@@ -7,6 +7,7 @@ import (
 	"go/ast"
 	"go/token"
 	"go/types"
+	"sort"
 	"strings"
 )
 
@@ -25,6 +26,9 @@ type Frame struct {
 	siteCtr  map[string]map[ast.Node]int
 	inClosure bool
 	specBind map[string]*SVal // extra spec bindings (callpre params etc.)
+	allowed  map[string][]*Term
+	wholeOK  map[string]bool
+	lockedKeys map[string]bool // fields protected by a lock this function acquired: no frame claim (other goroutines may write them)
 }
 
 type oKind int
@@ -69,6 +73,8 @@ func (fr *Frame) site(kind string, n ast.Node) int {
 
 // ---------------------------------------------------------------------------
 
+var mergeMaxDiff = 6
+
 func commonPrefix(a, b []*Term) int {
 	n := 0
 	for n < len(a) && n < len(b) && a[n] == b[n] {
@@ -110,6 +116,22 @@ func (e *Engine) merge(a, b *State) *State {
 		return a
 	}
 	if !sameDefers(a.defers, b.defers) || !sameLocks(a.locks, b.locks) || a.nlock != b.nlock || len(a.snaps) != len(b.snaps) {
+		return nil
+	}
+	// states that diverged a lot (e.g. one went through a loop or a contract call) stay separate paths:
+	// their join would be a large ite-laden VC that solvers handle worse than two small ones
+	diff := 0
+	for k, va := range a.vars {
+		if vb, ok := b.vars[k]; ok && va != vb {
+			diff++
+		}
+	}
+	for k, va := range a.heap {
+		if vb, ok := b.heap[k]; !ok || va != vb {
+			diff++
+		}
+	}
+	if diff > mergeMaxDiff {
 		return nil
 	}
 	L := commonPrefix(a.path, b.path)
@@ -650,6 +672,7 @@ type loopCtx struct {
 	rangeV  *Term // $range: the ranged slice/map value (entry)
 	invs    []*Clause
 	fnKey   string
+	frameKeys []string // heap keys havocked wholesale at the loop head: the function's frame is an implicit invariant
 }
 
 func (fr *Frame) loopInvs(n ast.Node) (int, []*Clause) {
@@ -671,7 +694,7 @@ type modSet struct {
 	whole map[string]bool
 }
 
-func (fr *Frame) havocMods(st *State, ms *modSet) {
+func (fr *Frame) havocMods(st *State, ms *modSet) (wholeKeys []string) {
 	e := fr.e
 	for v := range ms.vars {
 		if _, ok := st.vars[v]; !ok {
@@ -706,7 +729,12 @@ func (fr *Frame) havocMods(st *State, ms *modSet) {
 			}
 		}
 		st.heap[k] = Fresh("H$"+shortKey(k), s)
+		if !strings.HasPrefix(k, "ghost:") && !strings.HasPrefix(k, "global:") && !strings.HasPrefix(k, "box$") && !strings.HasPrefix(k, "cell:") && k != "$alloc" {
+			wholeKeys = append(wholeKeys, k)
+		}
 	}
+	sort.Strings(wholeKeys)
+	return wholeKeys
 }
 
 func (fr *Frame) checkInvs(st *State, lc *loopCtx, phase string, node ast.Node) {
@@ -718,11 +746,21 @@ func (fr *Frame) checkInvs(st *State, lc *loopCtx, phase string, node ast.Node) 
 		}
 		fr.e.oblige(fr, st, fmt.Sprintf("inv#%d.%s-%s", lc.ord, name, phase), "", 0, g, node, c, "")
 	}
+	for _, k := range lc.frameKeys {
+		if g := fr.frameFact(st, k); g != nil {
+			fr.e.oblige(fr, st, fmt.Sprintf("inv#%d.frame-%s", lc.ord, phase), shortKey(k), 0, g, node, nil, "implicit loop invariant: only what `modifies` names may change")
+		}
+	}
 }
 
 func (fr *Frame) assumeInvs(st *State, lc *loopCtx) {
 	for _, c := range lc.invs {
 		st.Assume(fr.evalSpecBool(st, c.Expr, fr.loopBindings(lc), fr.entry))
+	}
+	for _, k := range lc.frameKeys {
+		if g := fr.frameFact(st, k); g != nil {
+			st.Assume(g)
+		}
 	}
 }
 
@@ -753,7 +791,7 @@ func (fr *Frame) execFor(st *State, s *ast.ForStmt, label string) []Outcome {
 	fr.checkInvs(st, lc, "entry", s)
 	head := st.Clone()
 	ms := fr.modsOf(s.Body, s.Post)
-	fr.havocMods(head, ms)
+	lc.frameKeys = fr.havocMods(head, ms)
 	fr.assumeInvs(head, lc)
 	var out []Outcome
 	cond := True
@@ -846,7 +884,7 @@ func (fr *Frame) execRange(st *State, s *ast.RangeStmt, label string) []Outcome 
 		lc.k = IntLit(0)
 		fr.checkInvs(st, lc, "entry", s)
 		head := st.Clone()
-		fr.havocMods(head, ms)
+		lc.frameKeys = fr.havocMods(head, ms)
 		k := Fresh("k", IntSort)
 		lc.k = k
 		head.Assume(And(Le(IntLit(0), k), Le(k, n)))
@@ -885,18 +923,30 @@ func (fr *Frame) execRange(st *State, s *ast.RangeStmt, label string) []Outcome 
 		ks := e.sortOf(u.Key())
 		seenS := ArrSort(ks, BoolSort)
 		lc.seen = ConstArr(seenS, False)
+		lc.k = IntLit(0)
 		lc.rangeV = fr.eval(st, s.X)
 		fr.checkInvs(st, lc, "entry", s)
 		head := st.Clone()
-		fr.havocMods(head, ms)
+		lc.frameKeys = fr.havocMods(head, ms)
 		seen := Fresh("seen", seenS)
 		lc.seen = seen
 		m := fr.eval(head, s.X) // current value of the ranged map
 		lc.rangeV = m
+		kcnt := Fresh("k", IntSort)
+		lc.k = kcnt
+		// |seen| = k; seen is a subset of what the map held, so k <= card when the loop does not shrink the map
+		head.Assume(Ge(kcnt, IntLit(0)))
+		mapStable := !fr.writesMap(s.X, ms)
+		if mapStable {
+			head.Assume(Le(kcnt, Acc(m, "card")))
+		}
 		fr.assumeInvs(head, lc)
 		b := head.Clone()
 		key := Fresh("key", ks)
 		b.Branch(And(Select(Acc(m, "dom"), key), Not(Select(seen, key))))
+		if mapStable {
+			b.Assume(Lt(kcnt, Acc(m, "card")))
+		}
 		val := Select(Acc(m, "val"), key)
 		b.Assume(e.typeFacts(key, u.Key(), b))
 		b.Assume(e.typeFacts(val, u.Elem(), b))
@@ -906,6 +956,7 @@ func (fr *Frame) execRange(st *State, s *ast.RangeStmt, label string) []Outcome 
 			case o.kind == oNormal, o.kind == oContinue && (o.label == "" || o.label == label):
 				lc2 := *lc
 				lc2.seen = Store(seen, key, True)
+				lc2.k = Add(kcnt, IntLit(1))
 				lc2.rangeV = fr.eval(o.st, s.X)
 				fr.checkInvs(o.st, &lc2, "preserve", s)
 			case o.kind == oBreak && (o.label == "" || o.label == label):
@@ -917,6 +968,9 @@ func (fr *Frame) execRange(st *State, s *ast.RangeStmt, label string) []Outcome 
 		x := head.Clone()
 		kk := Var("k!q", ks)
 		x.Branch(Forall([]*Term{kk}, Implies(Select(Acc(m, "dom"), kk), Select(seen, kk))))
+		if mapStable {
+			x.Assume(Eq(kcnt, Acc(m, "card")))
+		}
 		// the visited set never exceeds what was in the map at some point; for maps not shrunk in the loop: seen ⊆ dom
 		out = append(out, Outcome{oNormal, "", x})
 	case *types.Chan:
@@ -993,9 +1047,56 @@ func (fr *Frame) modsOfNodes(nodes []ast.Node) *modSet {
 	ms := &modSet{vars: map[*types.Var]bool{}, heap: map[string]*Sort{}, ghosts: map[string]bool{}, at: map[string]map[*types.Var]bool{}, whole: map[string]bool{}}
 	visited := map[string]bool{}
 	for _, n := range nodes {
-		fr.e.collectMods(fr.info, n, ms, visited, 0)
+		for _, m := range loopReachingNodes(n) {
+			fr.e.collectMods(fr.info, m, ms, visited, 0)
+		}
 	}
 	return ms
+}
+
+// loopReachingNodes drops the bodies of `if` statements (directly in the loop body, possibly
+// nested in other ifs/blocks) that always leave the loop (last statement is an unlabeled
+// break or a return): what they modify never flows back to the loop head.
+func loopReachingNodes(n ast.Node) []ast.Node {
+	switch s := n.(type) {
+	case *ast.BlockStmt:
+		var out []ast.Node
+		for _, st := range s.List {
+			out = append(out, loopReachingNodes(st)...)
+		}
+		return out
+	case *ast.IfStmt:
+		var out []ast.Node
+		if s.Init != nil {
+			out = append(out, s.Init)
+		}
+		out = append(out, s.Cond)
+		if !alwaysLeaves(s.Body) {
+			out = append(out, loopReachingNodes(s.Body)...)
+		}
+		if s.Else != nil {
+			if eb, ok := s.Else.(*ast.BlockStmt); ok && alwaysLeaves(eb) {
+				// dropped
+			} else {
+				out = append(out, loopReachingNodes(s.Else)...)
+			}
+		}
+		return out
+	}
+	return []ast.Node{n}
+}
+
+func alwaysLeaves(b *ast.BlockStmt) bool {
+	if len(b.List) == 0 {
+		return false
+	}
+	switch l := b.List[len(b.List)-1].(type) {
+	case *ast.ReturnStmt:
+		return true
+	case *ast.BranchStmt:
+		return l.Tok == token.BREAK && l.Label == nil
+	}
+	return false
 }
 
 func (e *Engine) collectMods(info *types.Info, n ast.Node, ms *modSet, visited map[string]bool, depth int) {
@@ -1235,4 +1336,21 @@ func exprString(x ast.Expr) string {
 		return "func(...)"
 	}
 	return fmt.Sprintf("%T", x)
+}
+
+// writesMap: does the loop's mod-set include the ranged map expression x?
+func (fr *Frame) writesMap(x ast.Expr, ms *modSet) bool {
+	probe := &modSet{vars: map[*types.Var]bool{}, heap: map[string]*Sort{}, ghosts: map[string]bool{}}
+	fr.e.markWritten(fr.info, x, probe)
+	for v := range probe.vars {
+		if ms.vars[v] {
+			return true
+		}
+	}
+	for k := range probe.heap {
+		if _, ok := ms.heap[k]; ok {
+			return true
+		}
+	}
+	return false
 }
